@@ -88,6 +88,9 @@ def expand(job):
             # the neighbouring year: comparison, hashing and subtraction re-zone across the year boundary (in either direction)
             y = rnd.choice([1999, 2000, 2001, 2003, 2004, 2005, 2020, 2021, 1900, 1901, 0, 1, -1, 4, 5, 2100, 2101])
             n = R.year_start(m, y) + rnd.choice([0, 0, -1, -1, 1, -2])
+            if rnd.random() < 0.4:      # ... or the first / last day of a month (the end of February above all)
+                mo_ = rnd.choice([3, 3, 3, 2, 5, 12, 1, 8])
+                n = R.daynum(m, y, mo_, 1) + rnd.choice([0, 0, -1, 1])
             rep = rnd.choice(["cal", "ord", "ord", "week"])
             yy, a_, b_ = R.date_of(m, rep, n)
             zh, zm = rnd.choice([(1, 0), (-1, 0), (5, 30), (-3, -30), (13, 45), (-11, 0), (0, 30), (0, -30), (0, 0)])
